@@ -53,6 +53,11 @@
 (*     qerr     querier failure: none jr_err pending_err pl_missing        *)
 (*     known    (invite) R already knows the room                          *)
 (*     uq       answer of the user-ID-for-sender querier: ok err nil       *)
+(*     stripped (invite) the request carries invite_room_state: "given",   *)
+(*              or "none" (the handler derives it from its own state).     *)
+(*              No conjunct reads it: in particular "target not already    *)
+(*              joined" must hold whichever way the state arrives.         *)
+(*     fam      tag of the generating family (Handshake_gen)               *)
 (***************************************************************************)
 EXTENDS Integers, Sequences, FiniteSets, TLC
 
@@ -188,6 +193,13 @@ InvChecks(q, s) ==
        Chk("sig",       s.uq = "ok" /\ e.sig = "valid",            "M_FORBIDDEN"),
        Chk("notjoined", ~(s.known /\ s.mem = "join"),              "M_FORBIDDEN") >>
 
+\* --- invite, v3 endpoint (the local server completes and signs a template itself) ------------------
+\*  q = [room (path), proom (room named by the template)]
+Inv3Checks(q, s) ==
+    << Chk("rv",        s.rv = "known",                            "M_UNSUPPORTED_ROOM_VERSION"),
+       Chk("room",      q.proom = q.room,                          "M_BAD_JSON"),
+       Chk("notjoined", ~(s.known /\ s.mem = "join"),              "M_FORBIDDEN") >>
+
 (***************************************************************************)
 (* What a handler returns with an accepted event: the event as received    *)
 (* plus R's signature.                                                     *)
@@ -237,7 +249,7 @@ PJChecks(m, e0, s) ==
 (***************************************************************************)
 Base(v) == [ver |-> v, rv |-> "known", inRoom |-> TRUE, jr |-> "public", mem |-> "none", pending |-> FALSE,
             allow |-> <<>>, apl |-> "ok", aHere |-> TRUE, tb |-> "ok", qerr |-> "none", known |-> TRUE,
-            uq |-> "ok"]
+            uq |-> "ok", stripped |-> "none", fam |-> "e2e"]
 
 E2EJoin(vs) ==
     UNION {{[Base(v) EXCEPT !.jr = jr, !.mem = mem, !.inRoom = ir, !.pending = (mem = "invite"), !.allow = al] :
@@ -245,7 +257,8 @@ E2EJoin(vs) ==
                        ELSE IF jr = "restricted" THEN {<<"listed">>} ELSE {<<>>})} :
            v \in vs, jr \in {"public", "invite", "restricted"}, mem \in {"none", "invite", "ban"}, ir \in BOOLEAN}
 E2ELeave(vs)  == {[Base(v) EXCEPT !.mem = mem, !.inRoom = ir] : v \in vs, mem \in {"join", "ban"}, ir \in BOOLEAN}
-E2EInvite(vs) == {[Base(v) EXCEPT !.mem = mem, !.known = kn] : v \in vs, mem \in {"none", "join"}, kn \in BOOLEAN}
+E2EInvite(vs) == {[Base(v) EXCEPT !.mem = mem, !.known = kn, !.stripped = st] :
+                      v \in vs, mem \in {"none", "join"}, kn \in BOOLEAN, st \in {"none", "given"}}
 
 Scenarios(flw) ==
     LET vs == CASE ScenarioSet = "e2e_quick" -> {"10"}
@@ -362,6 +375,15 @@ InviteResp ==
     /\ phase' = "done"
     /\ UNCHANGED <<sc, flow, jev, nforge, pj>>
 
+\* single handler call, only generated as a guard product
+InviteV3Resp ==
+    /\ phase = "inv3req" /\ net.k = "inv3req"
+    /\ LET d == Decide(Inv3Checks(net, sc)) IN
+       /\ net' = NoMsg
+       /\ Log([a |-> "InviteV3Resp", req |-> net, res |-> d.res, code |-> d.code, why |-> d.why])
+    /\ phase' = "done"
+    /\ UNCHANGED <<sc, flow, jev, nforge, pj>>
+
 (***************************************************************************)
 (* The adversary.  ForgeTable: message kind -> field -> forged values.     *)
 (* Fields of the carried event are written "ev.<field>".                   *)
@@ -442,6 +464,7 @@ Forgeable(m, f) ==
 ResignChoices(f) == IF f \in {"e_type", "e_mship", "e_skey", "e_ssrv", "e_room", "e_via"} THEN BOOLEAN ELSE {FALSE}
 
 ForgeGuard(f, v, resign) ==
+    /\ flow # "product"
     /\ net.k \in DOMAIN ForgeTable
     /\ nforge < MaxForge
     /\ f \in DOMAIN ForgeTable[net.k]
@@ -471,7 +494,7 @@ ForgeAny ==
 
 Next ==
     \/ MakeJoinReq \/ MakeJoinResp \/ BuildJoin \/ SendJoinReq \/ SendJoinResp \/ JoinDone
-    \/ MakeLeaveReq \/ MakeLeaveResp \/ InviteReq \/ InviteResp
+    \/ MakeLeaveReq \/ MakeLeaveResp \/ InviteReq \/ InviteResp \/ InviteV3Resp
     \/ ForgeAny
 
 Spec == Init /\ [][Next]_vars
@@ -526,6 +549,9 @@ InvConjuncts(q, s) ==
     /\ s.uq = "ok" /\ e.sig = "valid"                      \* validly signed by the sender's server
     /\ ~(s.known /\ s.mem = "join")                        \* target not already joined
 
+Inv3Conjuncts(q, s) == s.rv = "known" /\ q.proom = q.room /\ ~(s.known /\ s.mem = "join")
+InviteV3Exact == \A i \in Entries("InviteV3Resp") : (hist[i].res = "ok") <=> Inv3Conjuncts(hist[i].req, sc)
+
 SendJoinExact == \A i \in Entries("SendJoinResp") : (hist[i].res = "ok") <=> SJConjuncts(hist[i].req, sc)
 InviteExact   == \A i \in Entries("InviteResp")   : (hist[i].res = "ok") <=> InvConjuncts(hist[i].req, sc)
 
@@ -567,5 +593,5 @@ TamperedNeverAccepted ==
     \A i \in Entries("SendJoinResp") \cup Entries("InviteResp") : hist[i].req.ev.sig # "valid" => hist[i].res = "refused"
 
 TypeOK == /\ nforge \in 0..MaxForge /\ pj \in {"", "ok", "refused"}
-          /\ phase \in {"start", "mjreq", "mjresp", "built", "sjreq", "sjresp", "mlreq", "invreq", "done"}
+          /\ phase \in {"start", "mjreq", "mjresp", "built", "sjreq", "sjresp", "mlreq", "invreq", "inv3req", "done"}
 =============================================================================
